@@ -221,8 +221,8 @@ func (t *Tpl) writeNode(w io.Writer, node *node, ctx *Ctx) (err error) {
 		if ctx.Err != nil {
 			return
 		}
-		if raw == nil || raw == "" {
-			// Variable doesn't exist or empty. Do nothing.
+		if raw == nil || raw == "" || typedNil(raw) {
+			// Variable doesn't exist or empty (a nil pointer of any type included). Do nothing.
 			return
 		}
 		// Convert modified data to bytes array.
